@@ -146,7 +146,10 @@ static void do_case(void) {
     const char *ret = "";
     ilen = 0;
     items[0] = 0;
-    if (op[0] == 'W') {                       /* natural time: advance, fire what is due */
+    if (op[0] == 'E') {                       /* the next n socket writes fail (ENOBUFS) */
+      cur_sid = -1;
+      vn_send_fail = atoi(op + 1);
+    } else if (op[0] == 'W') {                /* natural time: advance, fire what is due */
       cur_sid = -1;
       vn_advance((coap_tick_t)atol(op + 1));
       vn_prepare(ctx);
